@@ -245,7 +245,7 @@ def _mapping_specs(target: str):
     def stub_obj(**methods):
         return type("Stub", (), methods)()
 
-    if target in ("json", "json-lines"):
+    if target in ("json", "json-lines", "json-debug", "json-lines-debug"):
 
         def install(ser, factory):
             def decode(self, document):
@@ -254,7 +254,7 @@ def _mapping_specs(target: str):
             ser._JSONSerializer__decoder = stub_obj(decode=decode)
 
         return (
-            lambda: JSONSerializer(use_lines=(target == "json-lines")),
+            lambda: JSONSerializer(use_lines=target.startswith("json-lines"), debug=target.endswith("-debug")),
             install,
             b"[1]",
             b"\n",
@@ -286,6 +286,10 @@ def _mapping_specs(target: str):
                 ("ValueError", lambda: ValueError("could not convert string to int"), b"Iabc\n."),
                 ("ModuleNotFoundError", lambda: ModuleNotFoundError("No module named x"), b"cnosuchmodule_xyz\nx\n."),
                 ("AttributeError", lambda: AttributeError("Can't get attribute"), b"cos\nnosuchattr\n."),
+                # exceptions raised by the callable that rebuilds an object (bit flips of structurally valid pickles)
+                ("ZeroDivisionError", lambda: ZeroDivisionError("division by zero"), b"cbuiltins\ndivmod\n(I1\nI0\ntR."),
+                ("re.error", lambda: __import__("re").error("nothing to repeat"), b"cre\ncompile\n(S'a+*'\ntR."),
+                ("KeyError", lambda: KeyError("k"), b"coperator\ngetitem\n((dS'k'\ntR."),
             ],
         )
     if target in ("zlib", "bz2"):
@@ -377,7 +381,7 @@ def shards(tier: str):
         add(f"total/json/copy/N{N}", "total", dict(kind="json", N=N, cuts=1 if quick else 2, path="copy", limit=3), cost=9**N)
         add(f"total/jsonl/copy/N{N}", "total", dict(kind="jsonl", N=N, cuts=1 if quick else 2, path="copy", limit=3), cost=9**N)
     add("oneshot/json/N3", "oneshot", dict(kind="json", N=3), cost=9**3)
-    for target, modes in (("json", ("oneshot", "copy")), ("json-lines", ("oneshot", "copy")), ("pickle", ("oneshot",)), ("zlib", ("oneshot", "copy", "buf")), ("bz2", ("oneshot", "copy", "buf")), ("base64", ("oneshot", "copy", "buf"))):
+    for target, modes in (("json", ("oneshot", "copy")), ("json-lines", ("oneshot", "copy")), ("json-debug", ("oneshot", "copy")), ("json-lines-debug", ("oneshot", "copy")), ("pickle", ("oneshot",)), ("zlib", ("oneshot", "copy", "buf")), ("bz2", ("oneshot", "copy", "buf")), ("base64", ("oneshot", "copy", "buf"))):
         for mode in modes:
             add(f"mapping/{target}/{mode}", "mapping", dict(target=target, mode=mode), cost=5)
             out[-1]["stop_on_first"] = False  # report every unmapped exception class, not only the first
